@@ -8,6 +8,7 @@ from hypothesis import strategies as st
 
 from vk.core import Facet
 from vk.sources import RecordingSource, ScriptedSource, Unbounded, enumerate_collect
+from vk.values import single_objective_values
 
 LEVEL = "exploration"
 RULE = (
@@ -104,7 +105,7 @@ class TournamentRecorded(Facet):
         return st.integers(1, 8).flatmap(
             lambda n: st.builds(
                 lambda values, ts, repl, tgt, minimize, seed, decoy: {"values": values, "tsize": ts, "replacement": repl, "target": tgt, "minimize": minimize, "seed": seed, "decoy": decoy, "reused": seed % 2 == 1},
-                st.lists(st.integers(-3, 3), min_size=n, max_size=n),
+                st.lists(single_objective_values(), min_size=n, max_size=n),
                 st.integers(1, n + 2),
                 st.booleans(),
                 st.integers(1, 2 * n),
@@ -140,7 +141,7 @@ class TournamentAllDraws(Facet):
         return st.integers(1, 4).flatmap(
             lambda n: st.builds(
                 lambda values, ts, repl, tgt, minimize, decoy: {"values": values, "tsize": ts, "replacement": repl, "target": tgt, "minimize": minimize, "decoy": decoy},
-                st.lists(st.integers(0, 2), min_size=n, max_size=n),
+                st.lists(st.one_of(st.integers(0, 2), st.sampled_from([1e10, 1e10 + 1, 3.0, 3.0000000001])), min_size=n, max_size=n),
                 st.integers(1, 3),
                 st.booleans(),
                 st.integers(1, 3),
